@@ -3,11 +3,12 @@ import TensorModel.Ext.Hooks
   Family `MultIter` (C05): the multi-iterator (`iterator_mult.go`).
 
   * `NewMultIterator(aps...)` — `MultIt.new`: selection of `maxDims` / `maxShape`, the validation pass
-    through `BroadcastStrides`, one zeroed stride block per operand, block sharing keyed by the operand's
-    strides (`genIterator` / `hashIntArray`; the model's key is the strides list itself: two *different*
-    lists with the same 64-bit FNV-1a sum are outside the model — stated as an assumption),
-    `BroadcastStrides` with its vector special case, the later "fill 0s with 1s", `fit0`, `whichBlock`,
-    `lastIndexArr`;
+    through `BroadcastStrides` (skipped for an operand that has the iterator's own shape: `hasShape`), one
+    zeroed stride block per operand, block sharing keyed by the operand's strides (`genIterator` /
+    `hashIntArray`; the model's key is the strides list itself: two *different* lists with the same 64-bit
+    FNV-1a sum are outside the model — stated as an assumption); the block of an operand of the iterator's
+    own shape is a copy of its own strides, the block of any other operand comes from `BroadcastStrides`
+    with its vector special case; the later "fill 0s with 1s", `fit0`, `whichBlock`, `lastIndexArr`;
   * `MultIteratorFromDense(tts...)` — `MultIt.fromDense`: the mask pass (more than one masked operand: the
     iterator is run to exhaustion once to build the joint mask and is *left exhausted*);
   * `Next`, `Start`, `Reset`, `Done`, `SetReverse`, `SetForward`, `Coord`, `LastIndex`.
@@ -68,6 +69,11 @@ def broadcastStrides (dest src : Shape) (nDest : Nat) (srcStrides : List Int) : 
 
 /-! ### NewMultIterator -/
 
+/-- `hasShape(ap, shape)`: the operand has exactly the iterator's shape, axis by axis, and one stride per
+    axis (a scalar-equivalent shape may come without strides) — it is not broadcast -/
+def hasShape (shape : Shape) (ap : AP) : Bool :=
+  ap.shape == shape && (ap.strides.length == shape.length || isScalarEquiv ap.shape)
+
 /-- the `maxDims` / `maxShape` loop -/
 def selMax : List AP → Nat → Shape → Nat × Shape
   | [], md, ms => (md, ms)
@@ -92,7 +98,7 @@ def mkFit (shape : Shape) (b : Blk) : FlatIt :=
   { FlatIt.new { shape := shape, strides := b.pre } with strides := fill b.pre }
 
 /-- the main loop of `NewMultIterator`: `genIterator` (look the strides up / register a new block),
-    `BroadcastStrides` into the new block, `whichBlock[i]`. `share = false` is the iterator without block
+    the operand's own strides (`hasShape`) or `BroadcastStrides` into the new block, `whichBlock[i]`. `share = false` is the iterator without block
     sharing (every operand its own block), used to state that sharing is unobservable.
 
     `fitArr[nBlocks-1] = newFlatIterator(&ap2)` is executed for every operand; `offset` still points to the
@@ -105,6 +111,10 @@ def assign (share : Bool) (shape : Shape) (maxDims : Nat) : List AP → List Blk
     match (if share then bs.findIdx? (fun b => b.key == ap.strides) else none) with
     | some f => assign share shape maxDims aps bs (w ++ [f])
     | none =>
+      -- `copy(it.strides[offset:offset+maxDims], ap.strides)`
+      if hasShape shape ap then
+        assign share shape maxDims aps (bs ++ [⟨ap.strides, copyInto (zeros maxDims) ap.strides⟩]) (w ++ [bs.length])
+      else
       match broadcastStrides shape ap.shape maxDims ap.strides with
       | .ok s => assign share shape maxDims aps (bs ++ [⟨ap.strides, copyInto (zeros maxDims) s⟩]) (w ++ [bs.length])
       | .error (.err _) => throwPanic "unreachable: validated before"
@@ -128,10 +138,12 @@ def selFit0 (fits : List FlatIt) : Nat :=
   | [] => 0
   | f :: _ => go fits 0 0 f.size
 
-/-- the validation pass: `for _, ap := range aps { if _, err := BroadcastStrides(…); err != nil { panic(…) } }` -/
+/-- the validation pass:
+    `for _, ap := range aps { if hasShape(ap, shape) { continue }; if _, err := BroadcastStrides(…); err != nil { panic(…) } }` -/
 def validate (shape : Shape) (maxDims : Nat) : List AP → Res Unit
   | [] => pure ()
   | ap :: aps =>
+    if hasShape shape ap then validate shape maxDims aps else
     match broadcastStrides shape ap.shape maxDims ap.strides with
     | .ok _ => validate shape maxDims aps
     | .error (.err _) => throwPanic "can not broadcast strides"
@@ -190,15 +202,15 @@ def MultIt.start (it : MultIt) : Res (MultIt × Option Int) := do
   let it ← it.reset
   pure it.next
 
-/-- `MultIterator.SetReverse` / `SetForward`: the flat iterators are switched (and thereby reset);
-    `it.done` and `lastIndexArr` are left as they are -/
+/-- `MultIterator.SetReverse` / `SetForward`: the flat iterators are switched (and thereby reset), `it.done`
+    is cleared; `lastIndexArr` is left as it is -/
 def MultIt.setReverse (it : MultIt) : Res MultIt := do
   let fits ← it.fits.mapM FlatIt.setReverse
-  pure { it with fits := fits }
+  pure { it with fits := fits, done := false }
 
 def MultIt.setForward (it : MultIt) : Res MultIt := do
   let fits ← it.fits.mapM FlatIt.setForward
-  pure { it with fits := fits }
+  pure { it with fits := fits, done := false }
 
 /-- `MultIterator.Done` (recomputes `it.done`) -/
 def MultIt.isDone (it : MultIt) : MultIt × Bool :=
@@ -344,40 +356,6 @@ def specScript (n : Nat) (script : String) : Option SOutS :=
     | 'c' | 'd' | 'l' => some (it, o)
     | _ => none) (({}, {}) : SIt × SOutS)).map (fun (r : SIt × SOutS) => r.2)
 
-/-! ### Known-defect regions (findings.d/multiter.json) -/
-
-/-- F100 (C05): the operand's stride block is built by the *vector* case of `BroadcastStrides`
-    (`return []int{srcStrides[0]}`: one stride, the second cell of the block stays 0 and is later filled with
-    1) — for a row vector (1,n), n > 1, the stride of the axis that moves is dropped: an inner stride other
-    than 1 (a stepped slice, the transpose of a matrix column) is replaced by 1. -/
-def Excl_rowVecInnerStride (iterShape : Shape) (ap : AP) : Bool :=
-  isVector iterShape && isRowVec ap.shape &&
-  (match ap.strides[1]? with | some s => s != 1 | none => false)
-
-/-- F101 (C05): `MultIterator.SetReverse` / `SetForward` restart the flat iterators but leave the
-    multi-iterator's own `done` flag set: a direction switch on an exhausted iterator is followed by `Next`
-    calls that report the error (until `Reset`, `Start` or `Done()` — which recomputes the flag — is called).
-    Decided on the script and the number of elements by the abstract iterator. -/
-def Excl_switchWhenExhausted (n : Nat) (script : String) : Bool :=
-  -- (yielded since restart, stuck, a call was met while stuck)
-  let step (acc : Nat × Bool × Bool) (c : Char) : Nat × Bool × Bool :=
-    let (p, stuck, hit) := acc
-    match c with
-    | 'n' => if stuck then (p, stuck, true) else (if p < n then p + 1 else p, stuck, hit)
-    | 'N' => if stuck then (p, stuck, true) else (n, stuck, hit)
-    | 's' => (if 0 < n then 1 else 0, false, hit)
-    | 'x' => (0, false, hit)
-    | 'd' => (p, false, hit)
-    | 'r' | 'f' => (0, stuck || decide (p ≥ n), hit)
-    | _ => acc
-  (script.toList.foldl step (0, false, false)).2.2
-
-/-- F102 (C05): a column-major one-element vector `(1)` carries no strides at all (`CalcStridesColMajor`
-    returns nil for scalar-equivalent shapes, root cause F24); the vector case of `BroadcastStrides` reads
-    `srcStrides[0]` without looking at the length: `NewMultIterator` panics (index out of range). -/
-def Excl_vectorNoStrides (iterShape : Shape) (ap : AP) : Bool :=
-  isVector iterShape && isVector ap.shape && ap.strides.isEmpty
-
 /-! ### Steps -/
 
 def maskBits (st : St) (m : Win) : Res (List Bool) := (rangeI m.len).mapM (fun i => st.mget m i)
@@ -459,24 +437,8 @@ def stepS (psBefore psAfter : PState) (ss : SState) (_i : Nat) (toks : List Stri
           fin ss (some (String.intercalate " " (s!"ev={if o.ev.isEmpty then "-" else String.ofList o.ev.reverse}" :: known)))
   | _ => fin ss none
 
-def excl (ps : PState) (toks : List String) : List String × Bool :=
-  match toks with
-  | "multi" :: rest =>
-    match splitOps rest with
-    | none => ([], false)
-    | some (opToks, script) =>
-      let ts := opToks.filterMap (fun tok => (ps.obj tok).map (·.2))
-      if ts.length != opToks.length then ([], false) else
-      match ts with
-      | [] => ([], false)
-      | t0 :: _ =>
-        let aps := ts.map (·.ap)
-        let iterShape := (selMax aps 0 t0.ap.shape).2
-        let n := (totalSize t0.shape).toNat
-        ((if aps.any (Excl_rowVecInnerStride iterShape) then ["F100"] else []) ++
-         (if Excl_switchWhenExhausted n script then ["F101"] else []) ++
-         (if aps.any (Excl_vectorNoStrides iterShape) then ["F102"] else []), false)
-  | _ => ([], false)
+/-- no recorded defect region is left in this family (F100, F101, F102 are repaired: `findings.d/multiter.json`) -/
+def excl (_ps : PState) (_toks : List String) : List String × Bool := ([], false)
 
 end MultIter
 
